@@ -6,20 +6,23 @@ LEVEL = "model_checking"
 TECHNIQUE = ("TLA+ model of the serial run loop composed with the HTTP handlers of monitoring2 (one access pattern per endpoint class) model-checked "
              "with TLC; TLC-emitted request/gate schedules replayed on a real Monitor serving HTTP on loopback next to a real SerialEngine, the "
              "mutex-ordered log judged by TLC against the abstract conflict rule; Go race detector as a second oracle")
-LEVEL_TEXT = ("Monitor.tla composes the run loop of timing/serialengine.go (chk, flag load, wait, handler start, handler end) with HTTP handler "
-              "processes following monitor.go (pause/continue/state under engineControlMu, component/field through pauseForInspection, now/buffers/"
-              "progress/tick without any pause); TLC explores every interleaving for the design's own invariants (mutex, enginePaused mirrors the "
-              "engine flag, termination once left running), classifies every endpoint class against the conflict rule (no access while a handler "
-              "executes) and checks the repaired design (Pause waits for the dispatch in flight) conflict- and deadlock-free. TLC also emits every "
-              "schedule a sequential client can realise (requests x gate passages); each is replayed on a real monitoring2.Monitor (HTTP, loopback) "
-              "whose simulation handlers are gates, the log (handler start/end, request/response, engine Pause/Continue, observed calls into "
-              "simulation state) is validated by TLC against MonTrace.tla, and the final results are compared with an unmonitored run. A -race build "
-              "runs each endpoint while the parked handler keeps rewriting the inspected state, with no harness-made ordering between requester "
-              "and run loop; DATA RACE reports are attributed by their monitoring2 stack frame.")
+LEVEL_TEXT = ("Monitor.tla composes the run loop of timing/serialengine.go (chk, flag load, wait, dispatch lock, handler start, handler end) with HTTP "
+              "handler processes following monitor.go (pause/continue/state under engineControlMu, component/field through pauseForInspection which keeps "
+              "the mutex until it has continued, now/buffers/progress/tick without any pause); TLC explores every interleaving of 2-3 overlapping clients for "
+              "the design's own invariants (mutex, enginePaused mirrors the engine flag, the engine stays held and no handler runs until the LAST "
+              "overlapping inspection finished, termination once left running) and classifies every endpoint class against the conflict rule. Two negative "
+              "controls must be refuted by TLC: the old flag-only Pause, and a pauseForInspection that does not keep the mutex across the inspection. TLC also "
+              "emits every schedule a sequential client can realise (requests x gate passages); each is replayed on a real monitoring2.Monitor (HTTP, loopback) "
+              "whose simulation handlers are gates. Overlapping requests are driven too: an inspection of a multi-megabyte field whose client stops reading "
+              "(the handler stays inside the inspection, blocked on the socket) while further requests are issued; no handler may start in that window. The "
+              "log (handler start/end, request/response, engine Pause/Continue, observed calls into simulation state, windows) is validated by TLC against "
+              "MonTrace.tla, and the final results are compared with an unmonitored run. A -race build runs each endpoint while the parked handler keeps "
+              "rewriting the inspected state, with no harness-made ordering between requester and run loop; DATA RACE reports are attributed by stack frame.")
 LEVEL_NOTE = ("Interleavings are exhaustive in the model only (<=3 clients, <=3 events); on the real code a request is atomic for the controller "
-              "(no gate inside monitor.go), so only schedules with requests placed at the loop's gates, plus free-running runs, are executed. "
-              "All endpoints that touch simulation state fail today (W11: SerialEngine.Pause only raises a flag; now/tick/buffers/progress take no pause): "
-              "known findings keyed by (endpoint, class, symptom). /api/tick is an intervention by design: results are compared up to the timing of the kicked component.")
+              "(no gate inside monitor.go) except for the stalled large inspection, so only schedules with requests placed at the loop's gates, overlap "
+              "scenarios and free-running runs are executed. component/field inspection is race-free since SerialEngine.Pause waits for the dispatch in "
+              "flight (any conflict there is a new violation); now/tick/buffers/progress still take no pause: known findings keyed by (endpoint, class, symptom). "
+              "/api/tick is an intervention by design: results are compared up to the timing of the kicked component.")
 
 ENDPOINTS = ["pause", "continue", "state", "now", "tick", "component", "field", "buffers", "progress"]
 FRAME_TO_ENDPOINT = {"now": "now", "tick": "tick", "listComponentDetails": "component", "listFieldValue": "field",
@@ -50,6 +53,42 @@ def directed():
             out.append([g] * k + [["req", "pause"], g, ["req", ep], g, ["req", ep], ["req", "state"], ["req", "continue"], g, ["req", ep]])
             out.append([g] * k + [["req", "pause"], ["req", ep], ["req", "pause"], ["req", "continue"], ["req", "continue"], g, g])
     return out
+
+
+def overlaps(q):
+    if q:
+        return [dict(event=1, position="post", user_paused=False, b=["field"]),
+                dict(event=2, position="mid", user_paused=False, b=["component"]),
+                dict(event=1, position="pre", user_paused=True, b=["continue"]),
+                dict(event=0, position="", user_paused=False, b=["now", "component", "state"]),
+                dict(event=1, position="mid", user_paused=False, b=["pause", "continue"]),
+                dict(event=5, position="post", user_paused=True, b=["field", "continue"]),
+                dict(event=3, position="post", user_paused=False, b=["buffers", "tick", "progress", "field"]),
+                dict(event=0, position="", user_paused=True, b=["state", "continue"])]
+    out = []
+    for ev, pos in ((0, ""), (1, "pre"), (1, "mid"), (1, "post"), (2, "mid"), (5, "post")):
+        for up in (False, True):
+            for b in (["field"], ["component"], ["continue"], ["pause", "continue"], ["now", "buffers", "field"]):
+                out.append(dict(event=ev, position=pos, user_paused=up, b=b))
+    return out
+
+
+def judge_overlaps(ck, out):
+    infos = out.get("overlap") or []
+    sure = [x for x in infos if x.get("window_certain")]
+    ck.cov["overlap_windows_certain"] = len(sure)
+    if infos and not sure:
+        raise core.Broken("no overlap scenario kept the large inspection blocked on the socket (response smaller than the kernel buffers?): %s" % infos[:2])
+    for x in sure:
+        if x["handled_before_drain"] > x["handled_before_b"]:
+            key = {"endpoint": "field", "class": "pause_released_under_inspection", "symptom": "handler_started_during_access"}
+            ck.report(key, "overlap: while a /api/field inspection of a large field was still serializing (its client not reading), the requests %s completed "
+                           "and the engine handled %d event(s) (handled count %d -> %d before the inspection was drained): the engine was not kept held "
+                           "until the last overlapping inspection finished" % (x.get("b_completed_in_window"), x["handled_before_drain"] - x["handled_before_b"],
+                                                                                x["handled_before_b"], x["handled_before_drain"]), {"mode": "overlap", "scenario": x})
+    ck.sample({"overlap": {k: infos[0][k] for k in ("b", "b_completed_in_window", "handled_before_b", "handled_before_drain", "a_bytes", "window_certain")}} if infos else {})
+    ck.note("overlap: %d scenarios, %d with a certain window; requests completed inside a window: %s" % (
+        len(infos), len(sure), sorted({e for x in sure for e in (x.get("b_completed_in_window") or [])})))
 
 
 def judge_outcomes(ck, out, label):
@@ -115,8 +154,14 @@ def run_logged(ck, parts):
             seen[k] = c
             key = {"endpoint": c["endpoint"], "class": c["class"], "symptom": c["symptom"]}
             beh = behaviours[scn] if behaviours and scn < len(behaviours) else None
-            ck.report(key, "%s: endpoint class %s accessed simulation state (%s, %s) while an event handler was executing (%s); scenario %d, log line %d"
-                      % (label, c["endpoint"], c["what"], c["how"], c["class"], scn, c["line"]),
+            if c["how"] == "window_of_stalled_request":
+                desc = ("%s: an event handler %s while an overlapping /api/%s inspection was still serializing component state (%s): the engine was not "
+                        "kept held until the last inspection finished; scenario %d, log line %d"
+                        % (label, "started" if c["symptom"] == "handler_started_during_access" else "was running", c["endpoint"], c["class"], scn, c["line"]))
+            else:
+                desc = ("%s: endpoint class %s accessed simulation state (%s, %s) while an event handler was executing (%s); scenario %d, log line %d"
+                        % (label, c["endpoint"], c["what"], c["how"], c["class"], scn, c["line"]))
+            ck.report(key, desc,
                       {"mode": label, "case": c, "schedule": beh, "payload": {k2: v2 for k2, v2 in payload.items() if k2 != "behaviours"}})
         judge_outcomes(ck, out, label)
         if out.get("sample"):
@@ -194,14 +239,15 @@ def run(ck):
     ck.cov["rule"] = ("TLC: all interleavings of Monitor.tla within the cfg bounds. Real code: one case = one schedule (>=1 HTTP request placed at a gate of the run "
                       "loop, or a free-running program with a request stream, or one race-build run of one endpoint); all involve a live monitor and a running engine.")
     ck.assumptions += [
-        "a request is atomic for the controller: requests are placed at the run loop's gates (before Run, before the handler, inside the handler, after it), not inside monitor.go",
+        "a request is atomic for the controller: requests are placed at the run loop's gates (before Run, before the handler, inside the handler, after it), not inside monitor.go; the one exception is the large inspection whose client stops reading",
+        "a stalled inspection is known to be still inside its inspection when more bytes than the kernel's socket buffers can hold (tcp_wmem max + 2 MiB, receive buffer fixed at 32 KiB) arrive after the client resumes reading",
         "an access is known to overlap a handler only when it is observed at a call made by the monitor (engine time, TickLater, buffer level) or when the whole request lies inside one handler execution",
         "the race detector's happens-before tracking is sound; the harness adds no ordering between the requester and the run loop in race mode",
         "progress bars carry their own mutex (the simulation updates them under it): an overlap of /api/progress with a handler is judged by the race detector only",
         "/api/tick deliberately schedules a tick: results of schedules containing it are compared up to the timing of the kicked component",
         "net/http, sync.Mutex, sync.Cond behave as documented",
     ]
-    # 1. the model: design invariants, classification of every endpoint class, the repaired design
+    # 1. the model of the design as it is (repaired engine, inspections keep the control mutex), overlapping clients
     r = ck.run_tlc(["monitor"], "Monitor", "Monitor_q.cfg" if q else "Monitor_t.cfg", workers=4 if q else 8, timeout=1200)
     if not r.ok:
         raise core.Broken("Monitor.tla violates its own invariant %s %s" % (r.violated, r.error))
@@ -209,20 +255,22 @@ def run(ck):
         r3 = ck.run_tlc(["monitor"], "Monitor", "Monitor_t3.cfg", workers=8, timeout=1800)
         if not r3.ok:
             raise core.Broken("Monitor.tla (3 clients) violates its own invariant %s %s" % (r3.violated, r3.error))
-        h = ck.run_tlc(["monitor"], "Monitor", "Monitor_hyp.cfg", workers=2, timeout=600)
-        ck.note("NoConcurrentAccessUnderPause on the model of the code as it is: %s" % ("holds" if h.ok else "violated (hypothesis W11 at the monitor)"))
+    # negative controls: TLC must refute both
+    h = ck.run_tlc(["monitor"], "Monitor", "Monitor_hyp.cfg", workers=2, timeout=600)
+    if h.ok or h.violated != "NoConcurrentAccessUnderPause":
+        raise core.Broken("negative control lost: the flag-only Pause of the old engine is not refuted by TLC (%s)" % h.summary())
+    n = ck.run_tlc(["monitor"], "Monitor", "Monitor_negoverlap.cfg", workers=2, timeout=600)
+    if n.ok or n.violated != "InspectionHeld":
+        raise core.Broken("negative control lost: a pauseForInspection that drops the control mutex during the inspection is not refuted by TLC (%s)" % n.summary())
+    ck.note("negative controls refuted by TLC: flag-only Pause (%s), control mutex not kept across overlapping inspections (%s)" % (h.violated, n.violated))
     c = ck.run_tlc(["monitor"], "Monitor", "Monitor_cases.cfg", workers=1, timeout=600)
+    if not c.ok:
+        raise core.Broken("Monitor_cases: %s %s" % (c.violated, c.error))
     model_cases = sorted({(x["endpoint"], x["class"], x["symptom"]) for x in c.tagged["CASE"]})
     ck.cov["model_conflict_classes"] = ["%s/%s/%s" % x for x in model_cases]
     ck.note("model: conflicting (endpoint, class): %s" % sorted({x[:2] for x in model_cases}))
-    f = ck.run_tlc(["monitor"], "Monitor", "Monitor_fix_q.cfg" if q else "Monitor_fix_t.cfg", workers=4 if q else 8, timeout=1200)
-    if not f.ok:
-        raise core.Broken("the repaired design (Pause waits for the dispatch) fails %s %s on the model" % (f.violated, f.error))
-    if not q:
-        fc = ck.run_tlc(["monitor"], "Monitor", "Monitor_fixcases.cfg", workers=1, timeout=600)
-        if not fc.ok:
-            raise core.Broken("Monitor_fixcases: %s %s" % (fc.violated, fc.error))
-        ck.note("model of the repaired design: residual conflicts %s" % sorted({(x["endpoint"], x["class"]) for x in fc.tagged["CASE"]}))
+    if any(x[0] in ("component", "field", "pause", "continue", "state") for x in model_cases):
+        raise core.Broken("the model of the current design has a conflict for an endpoint class that pauses: %s" % model_cases)
     # 2. realisable schedules from TLC, replayed on the real monitor
     s = ck.run_tlc(["monitor"], "Monitor", "Monitor_sched_q.cfg" if q else "Monitor_sched_t.cfg", workers=4 if q else 8, timeout=1500)
     if not s.ok:
@@ -235,10 +283,13 @@ def run(ck):
     ck.rng.shuffle(calm)
     chosen = racy[:100 if q else 1500] + calm[:50 if q else 800] + directed()
     free_eps = [e for e in ENDPOINTS if e != "tick"]   # tick's unsynchronised queue write is exercised only at gates
-    (out, seen), (out2, _) = run_logged(ck, [
+    (out, seen), (out2, _), (out3, _) = run_logged(ck, [
         ("gated", dict(mode="gated", nwork=3, gap=4, behaviours=[[st[:2] for st in b if st[0] != "acc"] for b in chosen]), chosen),
         # 3. free-running engine with a request stream
-        ("free", dict(mode="free", nwork=60 if q else 200, gap=3, programs=6 if q else 60, requests=25 if q else 60, spin=300, endpoints=free_eps), None)])
+        ("free", dict(mode="free", nwork=60 if q else 200, gap=3, programs=6 if q else 60, requests=25 if q else 60, spin=300, endpoints=free_eps), None),
+        # 3b. overlapping requests: a stalled multi-megabyte inspection A, requests B inside its window
+        ("overlap", dict(mode="overlap", nwork=3, gap=4, overlaps=overlaps(q)), None)])
+    judge_overlaps(ck, out3)
     # the model's prediction per schedule vs what the real monitor did
     pred = sum(len(predicted(b)) for b in chosen)
     got = len(seen)
